@@ -668,6 +668,73 @@ pub fn run(ctx: &Ctx) -> Report {
         rep.merge(r);
     }
 
+    // ---- (b6) histories of executions on one statement - bind, reuse, bind other types (narrower,
+    //      wider, of variable length), reuse - closed by an execution whose value block is cut short,
+    //      too long, or laid out for the types of an EARLIER binding: whatever the server remembers
+    //      about the statement (types, widths, lengths), a block that does not fit the current binding
+    //      is refused, never a panic
+    let n = if ctx.miri { 3 } else { ctx.n(3000, 80_000) };
+    let r = par_cases(ctx, "C20", "execute-histories", n, |rng, i, rep| {
+        let np = rng.range(1, 3) as usize;
+        let mut case = Case::new(vec![Cmd::prepare(b"select ?")], vec![Script::PrepOk { id: 1, params: param_cols(np), cols: vec![] }]);
+        let fixed = [wire::T_TINY, wire::T_SHORT, wire::T_LONG, wire::T_LONGLONG, wire::T_FLOAT, wire::T_DOUBLE];
+        let var = [wire::T_VAR_STRING, wire::T_BLOB];
+        let mut bindings: Vec<Vec<(u8, bool)>> = Vec::new();
+        let mut shape = String::new();
+        let steps = rng.range(1, 5);
+        for st in 0..steps {
+            let rebind = st == 0 || rng.bool();
+            if rebind {
+                let tys: Vec<(u8, bool)> = (0..np).map(|_| (if rng.chance(1, 4) { *rng.pick(&var) } else { *rng.pick(&fixed) }, rng.bool())).collect();
+                bindings.push(tys);
+                shape.push('B');
+            } else {
+                shape.push('r');
+            }
+            let tys = bindings.last().unwrap().clone();
+            let params: Vec<Param> = tys.iter().map(|&(t, u)| gen_param_of(rng, t, u, false)).collect();
+            case.cmds.push(Cmd::execute_plain(1, &params, rebind));
+            case.scripts.push(Script::Q(QProg::completed(st, 0)));
+        }
+        // the closing execution omits the types; its values follow the current or an earlier binding,
+        // and the block may be cut or padded
+        let tys = if bindings.len() > 1 && rng.bool() { bindings[rng.usize(bindings.len() - 1)].clone() } else { bindings.last().unwrap().clone() };
+        let params: Vec<Param> = tys.iter().map(|&(t, u)| gen_param_of(rng, t, u, false)).collect();
+        let mut last = wire::com_execute(1, 0, 1, &params, false);
+        let what = match rng.below(4) {
+            0 => {
+                let cut = rng.range(1, 9) as usize;
+                let keep = last.len().saturating_sub(cut).max(10 + (np + 7) / 8);
+                last.truncate(keep);
+                "reuse, values cut short"
+            }
+            1 => {
+                let pad = rng.range(1, 9) as usize;
+                last.extend(rng.bytes(pad));
+                "reuse, values padded"
+            }
+            2 => "reuse, values laid out for an earlier binding",
+            _ => {
+                last.truncate(10 + (np + 7) / 8 + 1);
+                "reuse, no values at all"
+            }
+        };
+        shape.push_str(" + ");
+        shape.push_str(what);
+        let mut tail = wire::raw_packet(&last, 0);
+        tail.extend(wire::raw_packet(&[wire::COM_PING], 0));
+        case.raw_tail = tail;
+        case.scripts.push(Script::Q(QProg::completed(99, 0)));
+        let obs = run_case(&case);
+        rep.evaluations += 1;
+        let d = || J::obj().set("history (B = execute that binds types, r = reuse)", shape.clone()).set("parameters", np).set("last_execute", hex(&last[..last.len().min(48)])).set("outcome", obs.outcome.describe());
+        if i == 0 {
+            rep.sample(d());
+        }
+        judge(&obs, "execute history", rep, &d);
+    });
+    rep.merge(r);
+
     // ---- (b7) well-formed commands that are entitled to NO reply (long data, close) aimed at statements
     //      that are live, closed, never prepared or at parameter indexes out of range, with ordinary
     //      commands behind them: the outcome is an error return or replies to exactly the commands that
